@@ -1,7 +1,7 @@
 """C16 families 'walk' (SequentialParameterBuilder) and 'client' (Study.add_trial)."""
 from vv import gen
 from vv import c16_cond as cond
-from vv.c16_util import enc, dec, xmember
+from vv.c16_util import enc, dec, xmember, pack_tree, case_tree
 
 
 # ---------------------------------------------------------------------------
@@ -20,8 +20,8 @@ def exec_walk(ctx, tree, choices, skipped, order, space=None, case=None, prefix=
   built locally from `tree`; `case` / `prefix`: replay record and mechanism prefix
   of the calling family."""
   from vizier._src.pyvizier.shared import parameter_iterators as pi
-  case = case or {'family': 'walk', 'tree': tree, 'choices': enc(choices),
-                  'skipped': skipped, 'order': order}
+  case = case or {'family': 'walk', 'tree': tree, 'tree_json': pack_tree(tree),
+                  'choices': enc(choices), 'skipped': skipped, 'order': order}
   eff = {n: (None if n in skipped else v) for n, v in choices.items()}
   oracle = cond.active_walk(tree, eff)
   want = [p['name'] for p, _ in oracle]
@@ -104,7 +104,7 @@ def exec_walk(ctx, tree, choices, skipped, order, space=None, case=None, prefix=
 
 
 def replay_walk(ctx, case):
-  exec_walk(ctx, case['tree'], dec(case['choices']), case['skipped'], case['order'])
+  exec_walk(ctx, case_tree(case), dec(case['choices']), case['skipped'], case['order'])
 
 
 # ---------------------------------------------------------------------------
@@ -209,8 +209,8 @@ def exec_client_conditional(ctx, backend, tree, a, valid):
   (unknown key added) acceptance is a wrong answer.
   """
   from vizier.service import pyvizier as vz
-  case = {'family': 'client-cond', 'backend': backend, 'tree': tree, 'assignment': enc(a),
-          'valid': valid}
+  case = {'family': 'client-cond', 'backend': backend, 'tree': tree,
+          'tree_json': pack_tree(tree), 'assignment': enc(a), 'valid': valid}
   study = make_study(servicer(backend), cond.build_tree(tree), f'c16c-{ctx.seed}')
   ctx.case(['client-cond', backend, cond.tree_shape(tree), valid], True)
   try:
@@ -236,7 +236,7 @@ def exec_client_conditional(ctx, backend, tree, a, valid):
 
 def replay_client(ctx, case):
   if case['family'] == 'client-cond':
-    exec_client_conditional(ctx, case['backend'], case['tree'], dec(case['assignment']),
+    exec_client_conditional(ctx, case['backend'], case_tree(case), dec(case['assignment']),
                             case['valid'])
   else:
     exec_client(ctx, case['backend'], case['desc'],
